@@ -26,10 +26,15 @@ def run(c):
     return c.finish(
         rule="strings over the property's alphabet (ASCII specials, quotes, '@', combining marks, case-sensitive letters, fullwidth forms, punycode labels), "
         "valid addresses (IDN labels incl. Greek sigma at word-final / pre-hyphen / pre-digit positions, final sigma, dotless i, Lithuanian/Dutch special-casing letters, "
-        "right-to-left labels, joiners; labels maddy accepts that are no STD3 host names: underscores, '--' in positions 3-4, leading/trailing hyphens, digits only, a 64-byte label; address literals) "
-        "with their spelling variants (whole-string upper/title case, word-final upper case, random simple case mappings, NFD, combinations; A-labels in lower/upper/random letter case, "
+        "right-to-left labels, joiners; quoted local parts spelled by the harness itself (specials, redundant quotes and escapes, escapes in front of combining marks, "
+        "sequences for which NFC changes whether quotes are needed: '<' '>' '=' + U+0338, U+226E/F, U+037E, U+1FEF, U+212A); non-ASCII white space, C1 controls, BOM, zero-width and other "
+        "default-ignorable code points at the start / end of local parts and domain labels; labels maddy accepts that are no STD3 host names: underscores, '--' in positions 3-4, leading/trailing hyphens, digits only, a 64-byte label; address literals) "
+        "with their spelling variants (whole-string upper/title case, word-final upper case, random simple case mappings, NFD, NFC, combinations; A-labels in lower/upper/random letter case, "
         "per-label mixes, trailing dot; a respelling counts as a variant when the harness' own NFC + simple-lower-case fold agrees), and mutated valid addresses; "
         "each op runs the real function and the Lean model (primitive results shipped as a table); monitor: variants share ForLookup / dns.ForLookup / CleanDomain results and compare Equal, "
+        "Split re-joins to its input for every string of the run; a neighbouring DIFFERENT address (one code point inserted / deleted at the start, end or inside the local part or a label, "
+        "one backslash of a quoted spelling dropped, one code point replaced by its NFKC form; 'different' by the harness' own unquoting + NFC + simple-lower-case fold) gets another key / cleaned form and is not Equal; "
+        "a quoted string unquotes to what the harness spelled; "
         "every address address.Valid accepts gets a key from ForLookup / CleanDomain / dns.ForLookup / dns.ToUnicode, conversions succeed and round-trip on generated addresses; distinct = distinct op lines",
         explanation="theorems for all code-point lists and all primitive implementations; model tied to the code by differential runs; laws of the Unicode primitives sampled",
         search=search,
